@@ -9,6 +9,28 @@ pub fn run(args: &[String]) {
             println!("{ranges:?}");
             for c in chunks.iter().take(3) { println!("-----\n{}", &c[..c.len().min(400)]); }
         }
+        Some("ops") => {
+            // mc exp ops put:B put:B ... : run ops with the hist driver, dump layout after each
+            let scratch = crate::common::Scratch::new("exp");
+            let dir = scratch.dir();
+            let mut d = crate::hist::Driver::new(dir.clone(), crate::hist::Cfg { instant_index: false, prop: "exp".into() }).unwrap();
+            for op in &args[1..] {
+                crate::hist::exec_op(&mut d, op);
+                let bytes = std::fs::read(&d.path).unwrap();
+                let mut hb = [0u8; 4096];
+                hb.copy_from_slice(&bytes[..4096]);
+                let h = memvid_core::io::header::HeaderCodec::decode(&hb).unwrap();
+                println!("== after {op}: file_len={} footer_offset={} wal_size={} wal_seq={} viol={}", bytes.len(), h.footer_offset, h.wal_size, h.wal_sequence, d.viol.len());
+                if let Some(m) = d.mem.as_ref() {
+                    for id in 0..m.frame_count() as u64 {
+                        let f = m.frame_by_id(id).unwrap();
+                        println!("   frame {id}: off={} len={} status={:?}", f.payload_offset, f.payload_length, f.status);
+                    }
+                }
+                for v in &d.viol { println!("   VIOL {v}"); }
+                d.viol.clear();
+            }
+        }
         _ => println!("unknown experiment"),
     }
 }
